@@ -51,8 +51,16 @@ def run(run):
                 return True
             g = F.by_path.get(n.get("r") or "") or F.by_path.get(n.get("f") or "")
             return g is not None and g.get("dk") in ("Fn", "AssocFn")
-        for n, conds in T.paths_to(fn["body"], interesting):
+        def interesting2(n):
+            return interesting(n) or n.get("k") == "Closure"
+        for n, conds in T.paths_to(fn["body"], interesting2):
             cs = list(outer) + [c for c in conds]
+            if n.get("k") == "Closure":
+                c_ = F.by_path.get(n.get("d"))
+                if c_ is not None and depth < 3:
+                    # a closure handed to a combinator runs (if at all) at that point: its events are conditional
+                    out.extend(events(c_, depth + 1, cs + [("closure", n, True)]))
+                continue
             if n.get("n") in ("send", "try_send", "send_timeout"):
                 term = any(x.get("k") == "Adt" and x.get("v") == "Terminate" for a in n["a"][1:] for x in T.walk(a))
                 out.append(("send-terminate" if term and n["n"] == "send" else "send-other", n, cs))
@@ -117,15 +125,18 @@ def run(run):
 
     def find_loop(body):
         """the receive loop: the innermost loop that contains the match over LogThreadMsg"""
-        ms = T.find_matches(body, adt_suffix="LogThreadMsg")
+        ms = T.find_matches(body, adt_suffix="LogThreadMsg", deep=True)
         loops = [n for n in T.walk(body) if n.get("k") == "Loop" and ms and any(x is ms[0] for x in T.walk(n))]
         if not loops:
-            raise T.AnchorMissing("no loop around a match over LogThreadMsg in collect_and_deduplicate")
+            return None
         return loops[-1]
 
     def r2():
         body = f_col["body"]
         loop = find_loop(body)
+        if loop is None:
+            run.undecided("R2", "receive-loop", "no loop around a dispatch over LogThreadMsg found in collect_and_deduplicate", F.loc(body))
+            return
         site = F.loc(loop)
         recvs = [n for n in T.walk(body) if T.is_call(n) and "crossbeam_channel" in (n.get("f") or "") and n["n"] in ("recv", "try_recv", "recv_timeout", "recv_deadline", "try_iter", "iter", "into_iter")]
         run.check("R2", "blocking-recv", bool(recvs) and all(n["n"] in ("recv", "iter", "into_iter") for n in recvs),
@@ -133,20 +144,46 @@ def run(run):
         # a `for m in receiver.iter()` loop ends exactly when the channel is disconnected; only exits written in its body count
         user = loop
         is_for = False
+        takewhile_terminate = []
         for (fn_, pat, it, lb) in T.for_loops(body):
             if any(x is loop for x in T.walk(fn_)) and not any(x is fn_ for x in T.walk(loop)):
-                iters = [x for x in T.walk(it) if T.is_call(x) and "crossbeam_channel" in (x.get("f") or "")]
+                from .lib import bindsrc as B0
+                iters = [x for src, how in B0.sources(F, B0.bodies(F, f_col), it) for x in T.walk(src) if T.is_call(x) and "crossbeam_channel" in (x.get("f") or "")]
                 if iters:
                     user, is_for = lb, True
                     # adaptors that end the iteration early
                     cut = [x for x in T.walk(it) if T.is_call(x, ("take", "take_while", "skip", "skip_while", "step_by", "filter", "map_while", "filter_map"))]
+                    # `take_while(|m| !matches!(m, Terminate))` ends the iteration exactly at Terminate: an exit reason, not a cut
+                    from .lib import bindsrc as B
+                    from .lib import peval as PE
+                    for src, how in B.sources(F, B.bodies(F, f_col), it):
+                        for x in T.walk(src):
+                            if T.is_call(x, "take_while") and len(x["a"]) == 2 and T.peel(x["a"][1]).get("k") == "Closure":
+                                c = F.by_path.get(T.peel(x["a"][1])["d"])
+                                ps = [p_["p"] for p_ in c["params"] if p_.get("p")] if c is not None else []
+                                pid = None
+                                for p_ in ps[-1:]:
+                                    q = p_
+                                    while q.get("k") == "Deref":
+                                        q = q["p"]
+                                    if q.get("k") == "Bind":
+                                        pid = q["id"]
+                                if pid is not None:
+                                    vals = {}
+                                    for vname in F.variants(F.adt("utils::log::LogThreadMsg")):
+                                        r = PE.Spec(F, assume=lambda n, vname=vname: ("enum", vname) if n.get("k") in ("Var", "Upvar") and n.get("id") == pid else None).cev(c["body"], {})
+                                        vals[vname] = r
+                                    if vals.get("Terminate") == ("bool", False) and all(v == ("bool", True) for k_, v in vals.items() if k_ != "Terminate"):
+                                        takewhile_terminate.append(x)
+                    cut = [x for x in cut if not any(x is y for y in takewhile_terminate)] + [x for src, how in B.sources(F, B.bodies(F, f_col), it) if src is not it for x in T.walk(src) if T.is_call(x, ("take", "skip", "skip_while", "step_by", "filter", "map_while", "filter_map")) or (T.is_call(x, "take_while") and not any(x is y for y in takewhile_terminate))]
                     run.check("R2", "for-loop-over-all-messages", not cut, "the receive loop must see every message; the iterator is restricted by %s" % [x["n"] for x in cut], site)
         exits = T.paths_to(user, lambda n: n.get("k") in ("Break", "Return"))
         sy = S.Sym(F)
         env = {}
         sy.term(f_col["body"], env)
         nbad = 0
-        kinds = ["disconnected"] if is_for else []
+        kinds = (["disconnected"] if is_for else []) + (["terminate"] if takewhile_terminate else [])
+        extra_kinds = kinds
         for node, conds in exits:
             why = None
             for cd in conds:
@@ -154,6 +191,23 @@ def run(run):
                     names = T.pat_variant_names(cd[2]["p"])
                     if names == {"Terminate"}:
                         why = "terminate"
+                    # nested forms over the Result of recv(): `Ok(Terminate) | Err(_) => break`
+                    alts = T.pat_alternatives(cd[2]["p"])
+                    if alts and T.is_call(T.peel(cd[1]["e"]), "recv"):
+                        kinds_ = []
+                        for q in alts:
+                            qn = T.pat_variant_names(q)
+                            if qn == {"Err"}:
+                                kinds_.append("disconnected")
+                            elif qn == {"Ok"} and T.pat_mentions_adt(q, "LogThreadMsg"):
+                                inner = [s_["p"] for s_ in T.pat_peel(q).get("sub", [])]
+                                kinds_.append("terminate" if inner and T.pat_variant_names(inner[0]) == {"Terminate"} else None)
+                            else:
+                                kinds_.append(None)
+                        if kinds_ and None not in kinds_:
+                            why = "terminate" if "terminate" in kinds_ else "disconnected"
+                            if "terminate" in kinds_:
+                                extra_kinds.append("terminate")
                     scr = T.peel(cd[1]["e"])
                     if T.is_call(scr, "recv") and names and names <= {"Err"}:
                         why = "disconnected"
@@ -226,7 +280,11 @@ def run(run):
         return None, None
 
     def key_source(root, e, depth=0):
-        """expressions the key `e` is made of, following local bindings: list of (expr, how)"""
+        """expressions the key `e` is made of, following local bindings and small helpers: list of (expr, how)"""
+        from .lib import bindsrc as B
+        lib = B.sources(F, [root], e, follow_calls=True)
+        if len(lib) > 1:
+            return lib
         out = [(e, "plain")]
         seen = set()
         work = [e]
@@ -242,12 +300,21 @@ def run(run):
         return out
 
     def mentions_field(e, fname):
-        return any(x.get("k") == "Field" and x.get("fn") == fname for x in T.walk(e))
+        if any(x.get("k") == "Field" and x.get("fn") == fname for x in T.walk(e)):
+            return True
+        # through a small helper: `match Self::origin_address_of_log(&log_message) { .. }`
+        from .lib import bindsrc as B
+        if any(x.get("k") == "Call" and (F.by_path.get(x.get("r") or "") or F.by_path.get(x.get("f") or "")) is not None for x in T.walk(e)):
+            return any(y.get("k") == "Field" and y.get("fn") == fname for src, how in B.sources(F, [], e, follow_calls=True) for y in B.walk_with_closures(F, src))
+        return False
 
     def r3():
         body = f_col["body"]
         loop = find_loop(body)
-        ms = T.find_matches(loop, adt_suffix="LogThreadMsg")
+        ms = T.find_matches(loop, adt_suffix="LogThreadMsg") if loop is not None else []
+        if not ms:
+            run.undecided("R3", "storage", "the per-kind storage is not written as a match over LogThreadMsg inside the receive loop of collect_and_deduplicate (it may live in helper methods, which this rule does not follow)", F.loc(body))
+            return
         m = ms[0]
         adt = F.adt("utils::log::LogThreadMsg")
         for v in F.variants(adt):
